@@ -54,14 +54,21 @@ MANIFEST = {
             "non-recursive setter would leave.  The whole default_env setter, add_subcommand's inheritance, _ActionSubCommands.__call__, "
             "handle_subcommands, parse_env and the env resolution of _parse_common are pinned; histories on real parser trees (setter calls on any "
             "parser of the tree interleaved with parse_args / parse_object along a path, env variables and options at every level, root --cfg with "
-            "sections) are compared with the model (flags computed by the model's setter) and judged by an independent per-level fold.",
+            "sections) are compared with the model (flags computed by the model's setter) and judged by an independent per-level fold.  "
+            "Sections for inner levels inside an outer config and parse_object on trees are in the model (parseLevelsT / parseObjectT: own part + "
+            "pending section per level, the outer merge_config's treatment of a section's key+ entries transcribed): "
+            "C04_order_level_sections_partial (a level's value = fold of its base, the incoming section, its command line; any enclosing "
+            "handle_subcommands), C04_sections_chain, C04_sections_last_writer, and the Lean witnesses of the two open findings of this class "
+            "(C04_subsection_append_counterexample, C04_subdcf_section_counterexample).  Argument types now include Union[int, List[int]] and "
+            "Optional[List[int]] (a previous scalar, 0 included, is promoted by key+; model listOf).",
     "level_note": "Trusted: Lean kernel; axioms propext/Quot.sound/Classical.choice only; the correspondence harness and its generators; the C11 refinement "
                   "(setK/getK are __setitem__/__getitem__ when no dict value is on the key path). Outside: argparse tokenisation, glob/expanduser, the "
                   "loaders, type adaptation (values are generated in normal form), groups, links, positionals.  Subcommands: the model covers "
-                  "parse_args along a path chosen on the command line, level by level (the nesting cfg[name] = sub is the C11 algebra); sections for "
-                  "inner levels inside an outer config, parse_object on trees, and setter calls on inner parsers are exercised by the Python oracle "
-                  "only (sections/parse_object) or by the correspondence only (mixed flags: the documentation does not say what to expect); the "
-                  "subcommand environment variable and default config files of parsers with subcommands are C17's subject (open findings there).",
+                  "parse_args along a path chosen on the command line and parse_object on the tree, level by level (own keys + pending section of the "
+                  "next level; the nesting cfg[name] = sub is the C11 algebra; assumption checked per case: a config does not hold key+ for an own key "
+                  "and for a section key at once); setter calls on inner parsers are exercised by the correspondence only (mixed flags: the "
+                  "documentation does not say what to expect); default config files of parsers with subcommands are replayed as the witness of an "
+                  "open finding only, the subcommand environment variable is not modelled (both: C17's subject, open findings there).",
 }
 
 FINDING_ENV_APPEND = "C04-envcfg-append"
@@ -82,16 +89,19 @@ DCF_PATTERN_POOL = [
 FINDING_STRING_NODEFAULTS = "C04-string-nodefaults"
 
 DEST_POOL = ["n", "m", "s", "l", "d", "k", "g.l", "g.o", "g.d", "g.s", "h.x.y", "h.x.l", "h.s", "h.d"]
-TYPES = ["int", "str", "list", "dict"]
-KIND = {"int": "scalar", "str": "scalar", "list": "list", "dict": "dict"}
+# "ilist" = Union[int, List[int]] (a scalar or a list: appending promotes a previous scalar, 0 included, to a one-element list),
+# "olist" = Optional[List[int]]: append-capable unions
+TYPES = ["int", "str", "list", "dict", "ilist", "list", "dict", "olist", "int", "str"]
+KIND = {"int": "scalar", "str": "scalar", "list": "list", "dict": "dict", "ilist": "list", "olist": "list"}
+APPENDABLE = ("list", "ilist", "olist")
 ITEM_NAMES = ["a", "b", "c", "z"]
 
 
 # ---------------------------------------------------------------- parser spec -> real parser / model parser
 def py_type(t):
-    from typing import Dict, List
+    from typing import Dict, List, Optional, Union
 
-    return {"int": int, "str": str, "list": List[int], "dict": Dict[str, int]}[t]
+    return {"int": int, "str": str, "list": List[int], "dict": Dict[str, int], "ilist": Union[int, List[int]], "olist": Optional[List[int]]}[t]
 
 
 def build_parser(spec, root):
@@ -391,7 +401,11 @@ def ref_fold(assigns):
         if op == "set":
             cfg[k] = copy.deepcopy(v)
         elif op == "append":
-            cfg[k] = (cfg[k] if isinstance(cfg.get(k), list) else []) + (v if isinstance(v, list) else [v])
+            prev = cfg.get(k)  # the list built so far; a previous scalar (0 and "" included) counts as a one-element list
+            prev = prev if isinstance(prev, list) else [] if prev is None or isinstance(prev, dict) else [prev]
+            cfg[k] = prev + (v if isinstance(v, list) else [v])
+        elif op == "note":  # the config argument's own list gets one more entry (nothing is promoted there)
+            cfg[k] = (cfg[k] if isinstance(cfg.get(k), list) else []) + [None]
         else:
             cfg[k] = {**(cfg[k] if isinstance(cfg.get(k), dict) else {}), v[0]: v[1]}
     return cfg
@@ -432,7 +446,7 @@ def flatten_sources(spec, case, env_append_on_empty=False):
             if env_append_on_empty:  # behaviour of the open finding: the env config is merged into an EMPTY namespace first
                 sub = [(op, k, v) for op, k, v in ref_fold_items(sub)]
             out += sub
-            out.append(("append", cd, [None]))
+            out.append(("note", cd, None))
         for a in spec["args"]:  # one variable per argument
             if a["dest"] in case.get("env_vars", {}):
                 out.append(("set", a["dest"], case["env_vars"][a["dest"]]))
@@ -440,7 +454,7 @@ def flatten_sources(spec, case, env_append_on_empty=False):
         for it in case.get("argv", []):
             if it["t"] == "cfg":
                 out += flatten_tree(spec, it["tree"])
-                out.append(("append", it["k"], [None]))
+                out.append(("note", it["k"], None))
             elif it["t"] == "item":
                 out.append(("item", it["k"], (it["i"], it["v"])))
             else:
@@ -476,7 +490,9 @@ def well_formed(spec, case):
         a = arg_of(spec, k)
         if a is None:
             return False
-        if op == "append" and a["type"] not in ("list", "config"):
+        if op == "note" and a["type"] != "config":
+            return False
+        if op == "append" and a["type"] not in APPENDABLE:
             return False
         if op == "item" and a["type"] != "dict":
             return False
@@ -517,6 +533,10 @@ def gen_value(rng, typ, small=False):
         return rng.randint(0, 30)
     if typ == "str":
         return "s%d" % rng.randint(0, 9)
+    if typ == "ilist":
+        return rng.choice([0, 0, rng.randint(1, 30)]) if rng.random() < 0.55 else gen_value(rng, "list", small)
+    if typ == "olist":
+        return None if rng.random() < 0.25 else gen_value(rng, "list", small)
     if typ == "list":
         return [rng.randint(0, 30) for _ in range(rng.choice([0, 1, 1, 2, 3] if not small else [1, 1, 2]))]
     if typ == "dict":
@@ -573,13 +593,13 @@ def gen_tree(rng, spec, focus, allow_append=True, unknown=False, null_p=0.04):
     for d in ks:
         a = arg_of(spec, d)
         key, v = d, gen_value(rng, a["type"])
-        if a["type"] == "list" and allow_append and rng.random() < 0.45:
+        if a["type"] in APPENDABLE and allow_append and rng.random() < 0.45:
             key = d + "+"
             v = rng.choice([v, rng.randint(0, 30)]) if v else rng.randint(0, 30)
         elif rng.random() < null_p:
             v = None
         put(tree, key, v, style)
-        if a["type"] == "list" and key == d and allow_append and rng.random() < 0.08:
+        if a["type"] in APPENDABLE and key == d and allow_append and rng.random() < 0.08:
             put(tree, d + "+", [rng.randint(0, 30)], style)  # both `k` and `k+` in one mapping
     if unknown:
         put(tree, rng.choice(["zz", "g.zz", "n+", "zz+"]) if rng.random() < 0.7 else ks[0] + "x", 1, style)
@@ -641,7 +661,7 @@ def gen_case(rng, spec, mask, method, n_argv, bad=False):
             form = rng.choice(["eq", "sp"])
             if cd is not None and r < 0.22:
                 case["argv"].append({"t": "cfg", "k": cd, "tree": gen_tree(rng, spec, focus), "via": rng.choice(["string", "file"]), "form": form})
-            elif a["type"] == "list" and r < 0.65:
+            elif a["type"] in APPENDABLE and r < 0.65:
                 v = gen_value(rng, "list", small=True) if rng.random() < 0.4 else rng.randint(0, 30)
                 case["argv"].append({"t": "append", "k": d, "v": v, "form": form})
             elif a["type"] == "dict" and r < 0.65:
@@ -651,7 +671,7 @@ def gen_case(rng, spec, mask, method, n_argv, bad=False):
         if bad_at == "argv":
             case["argv"].insert(rng.randint(0, len(case["argv"])), rng.choice([
                 {"t": "set", "k": "zz", "v": 1, "form": "eq"},
-                {"t": "append", "k": next((a["dest"] for a in real_args if a["type"] != "list"), "zz"), "v": 1, "form": "eq"},
+                {"t": "append", "k": next((a["dest"] for a in real_args if a["type"] not in APPENDABLE), "zz"), "v": 1, "form": "eq"},
             ]))
     elif method in ("string", "path", "object"):
         case["tree"] = gen_tree(rng, spec, focus, unknown=(bad_at in ("tree", "argv")))
@@ -1056,7 +1076,7 @@ def run_trees(ctx: Ctx, bench, tree_corpus, new):
     ctx.extra["tree_parses"] = len(runs)
 
     # correspondence: the model's setter decides the flags, the model's levels give the values
-    sel = [r for r in runs if T.in_model(r[1][r[2]]["case"])]
+    sel = [r for r in runs if T.in_model(r[1][r[2]]["case"]) and T.spec_in_model(r[0])]
     try:
         outs = ctx.driver("Sources", [T.model_line(spec, hist, i) for spec, hist, i, _, _ in sel], timeout=1800) if sel else []
     except MachineryError as ex:
